@@ -42,13 +42,14 @@ PadReason(e, st0, i, n) ==
 Reason(e, s) ==
   CASE e.ev = "packetize" ->
          IF e.res # "ok" THEN "packetize_panic"
+         ELSE IF e.nil_packets # 0 THEN "nil_packet_returned"
          ELSE IF ~e.earlier_packets_unchanged THEN "earlier_packet_changed_by_later_call"
          ELSE IF Len(e.pkts) # e.nfrags THEN "fragment_count"
          ELSE LET r == PktReason(e, s, 1, Len(e.pkts)) IN
               IF r # "" THEN r
               ELSE IF e.ts_after # AddU32(s.s.ts, e.samples) THEN "timestamp_advance" ELSE ""
     [] e.ev = "skip" -> IF e.res # "ok" THEN "skip_panic" ELSE IF e.ts_after # AddU32(s.s.ts, e.samples) THEN "skip_advance" ELSE ""
-    [] e.ev = "pad" -> IF e.res # "ok" THEN "padding_panic" ELSE IF ~e.earlier_packets_unchanged THEN "earlier_packet_changed_by_later_call"
+    [] e.ev = "pad" -> IF e.res # "ok" THEN "padding_panic" ELSE IF e.nil_packets # 0 THEN "nil_packet_returned" ELSE IF ~e.earlier_packets_unchanged THEN "earlier_packet_changed_by_later_call"
                        ELSE IF Len(e.pkts) # e.n THEN "padding_count" ELSE PadReason(e, s, 1, e.n)
     [] e.ev = "enable" -> IF e.res # "ok" THEN "enable_panic" ELSE ""
     [] e.ev = "unavailable" -> ""      \* the verification accessors do not fit the implementation (counted by the orchestrator)
